@@ -17,14 +17,17 @@ RULE = (
     "and populate, rename directory, rename file, on sources, outputs, matched paths, tree files "
     "and their directories) are applied while the director watches, and single operations on "
     "static files at every event of the preceding build, and sequences that span two watch "
-    "phases with a rebuild in between (a globbing step that stays pending); then `rebuild` is compared with stopping "
+    "phases with a rebuild in between (a globbing step that stays pending), and bursts in which "
+    "operations and the rebuild request follow each other without waiting for the watcher to "
+    "finish reporting (changes still queued inside the director); then `rebuild` is compared with stopping "
     "the director and starting a new one on the same tree and database; the kernel's real inotify "
     "delivers the events, only their delivery moments are explored; non-trivial: at least one "
     "operation touched a path the workflow knows"
 )
 ASSUMPTIONS = [
     "the real Linux inotify is inside the closed system, read without blocking; queue overflow is not reached",
-    "a rebuild is requested only after every kernel event has been delivered (as `stepup wait` does)",
+    "a rebuild is requested only after every kernel event has been handed to the director (as "
+    "`stepup wait` does); in the burst runs it may still be queued inside the director",
 ]
 
 PROJECTS = {
@@ -106,7 +109,7 @@ def apply_op(world, op, originals):
         raise ValueError(op)
 
 
-def watch_run(files, cfg, ops, prefix, during_build=False, mode="rebuild"):
+def watch_run(files, cfg, ops, prefix, during_build=False, mode="rebuild", eager=False):
     """Build in watch mode and apply ops; then either `rebuild` in the living director, or shut it
     down and start a new director on the same tree and database (mode="restart")."""
     w = fresh_world(files, "c14w")
@@ -116,10 +119,13 @@ def watch_run(files, cfg, ops, prefix, during_build=False, mode="rebuild"):
         h = sim.handler
         if h is None or h.watcher is None:
             return []
-        busy = h.watcher.busy_watching.is_set() and not any(not g.fut.done() for g in sim.gates)
+        # eager: the user does not wait for the watcher to finish reporting a change before the
+        # next operation or the rebuild; only the kernel events must have been handed over
+        quiet = h.watcher.busy_watching.is_set() and not any(not g.fut.done() for g in sim.gates)
+        busy = quiet or (eager and h.watcher.busy_watching.is_set())
         nwatch = sum(1 for r in sim.reports if r[0] == "PHASE" and r[1] == "watch")
         if state["stage"] == "midbuild":
-            if busy and nwatch > state["nwatch"] and sim.inotify_idle():
+            if quiet and nwatch > state["nwatch"] and sim.inotify_idle():
                 state["stage"] = "ops"
             else:
                 return []
@@ -152,7 +158,7 @@ def watch_run(files, cfg, ops, prefix, during_build=False, mode="rebuild"):
                     s.loop.create_task(s.handler.start_build_phase())
                 return [EnvEvent("rebuild" if mode == "rebuild" else "shutdown-instead", fn)]
         elif state["stage"] == "rebuilt":
-            if busy and nwatch > state["nwatch"] and sim.inotify_idle():
+            if quiet and nwatch > state["nwatch"] and sim.inotify_idle():
                 def fn(s):
                     state["stage"] = "down"
                     s.final_graph = s.graph_text()
@@ -161,7 +167,10 @@ def watch_run(files, cfg, ops, prefix, during_build=False, mode="rebuild"):
                 return [EnvEvent("shutdown", fn)]
         return []
 
-    sim = Sim(w, njob=cfg["njob"], do_watch=True, env_events=env, horizon=5000)
+    # eager runs use the stalled-terminal base schedule: kernel events are handed over and the
+    # user acts while the watcher still waits for the terminal to take its first report
+    sim = Sim(w, njob=cfg["njob"], do_watch=True, env_events=env, horizon=5000, env_first=eager,
+              **({"policy": "slowrep"} if eager else {}))
     sim.start()
     fault = None
     try:
@@ -211,6 +220,11 @@ def jobs(tier, seed):
         for lo in range(0, len(seqs), chunk):
             out.append({"name": name, "seqs": seqs[lo : lo + chunk], "bound": 0 if tier == "quick" else 1,
                         "during_build": False})
+        # bursts: operations and the rebuild follow each other without waiting for the watcher
+        burst = [[a, b] for a, b in itertools.product(menu[:6], repeat=2) if a != b][: (20 if tier == "quick" else 200)]
+        burst += [[a, b, c] for a, b, c in itertools.product(menu[:4], repeat=3) if len({a, b, c}) == 3][: (10 if tier == "quick" else 100)]
+        for lo in range(0, len(burst), chunk):
+            out.append({"name": name, "seqs": burst[lo : lo + chunk], "bound": 0, "during_build": False, "eager": True})
         if name in MULTI_PHASE:
             out.append({"name": name, "seqs": MULTI_PHASE[name], "bound": 0 if tier == "quick" else 1,
                         "during_build": False})
@@ -232,12 +246,13 @@ def run_job(spec):
     for ops in spec["seqs"]:
         ops = [tuple(o) for o in ops]
         def run(prefix, ops=ops):
-            return watch_run(files, cfg, ops, prefix, spec["during_build"])
+            return watch_run(files, cfg, ops, prefix, spec["during_build"], eager=spec.get("eager", False))
 
         def visit(prefix, obs, ops=ops):
             ref = None
             if obs.fork is not None:
-                ref = watch_run(files, cfg, ops, obs.choices[: obs.fork], spec["during_build"], mode="restart")
+                ref = watch_run(files, cfg, ops, obs.choices[: obs.fork], spec["during_build"], mode="restart",
+                                eager=spec.get("eager", False))
                 acc.evaluations += 1
                 if ref.fork != obs.fork:
                     acc.violation(f"C14|{name}|harness-fork-divergence", {"ops": ops, "a": obs.fork, "b": ref.fork}, None)
